@@ -154,6 +154,7 @@ type scriptLine struct {
 
 // Obligation is one proof obligation cut out of the script.
 type Obligation struct {
+	DropQuant bool // replay only: build the query without quantified assumptions (candidate models; the replay on the real code arbitrates)
 	Name    string // stable name: <func>/<kind>[/<detail>]#<ordinal>
 	Kind    string // ensures, requires, sink, invariant-entry, invariant-preserved, index, nil-deref, ...
 	Func    string
@@ -442,10 +443,10 @@ func (s *Script) query(o *Obligation, wantModel bool) string {
 		if l.kind == lkDefine && !needed[l.name] {
 			continue
 		}
-		if o.Cover && l.kind == lkDefine && (strings.Contains(l.text, "(forall ") || strings.Contains(l.text, "(exists ") || mentionsAny(l.text, quantDefs)) {
+		if (o.Cover || o.DropQuant) && l.kind == lkDefine && (strings.Contains(l.text, "(forall ") || strings.Contains(l.text, "(exists ") || mentionsAny(l.text, quantDefs)) {
 			quantDefs[l.name] = true
 		}
-		if o.Cover && l.kind == lkAssume && (strings.Contains(l.text, "(forall ") || strings.Contains(l.text, "(exists ") || mentionsAny(l.text, quantDefs)) {
+		if (o.Cover || o.DropQuant) && l.kind == lkAssume && (strings.Contains(l.text, "(forall ") || strings.Contains(l.text, "(exists ") || mentionsAny(l.text, quantDefs)) {
 			// reachability checks are made without the quantified assumptions (solvers answer
 			// "unknown" on satisfiable quantified problems); documented as a weaker vacuity guard
 			continue
